@@ -185,6 +185,7 @@ def _arg_extreme(which):
         nf = _nan_free(a, n)
         NP.fact(run, z3.Implies(nf, NP.QA(n, lambda j: z3.Not(better(a.at(j), best)))))
         NP.fact(run, z3.Implies(nf, NP.QA(idx, lambda j: better(best, a.at(j)))))
+        run.__dict__.setdefault('arg_log', []).append((which, a, idx))
         return idx
     return fn
 
